@@ -103,4 +103,9 @@ CHECKS = {
         ref="5 C18", note="Trusted: TLC, the GFA/CSV splitters, Python's sorted() only through the TLA+ LexLess definition it is compared with. The generator's chain structure is itself checked against the declarative decomposition (ConstructionOK) on the single-chromosome configs. Bounds: chains of <=2 (quick) / <=3 (thorough) units exhaustively over 6 bubble kinds and 2 end kinds, all pairs (thorough: triples) of short chromosomes, one 6-unit pattern for long chains (BO >= 10). Chromosomes joined through a haplotype node are not generated yet.",
         technique="TLC bounded enumeration of defective multi-chromosome graphs + differential replay through order_gfa; TLC validation",
     ),
+    "C17": dict(
+        text="Storage.tla models plain byte offsets and BGZF virtual offsets (blocks, both representations of a block boundary) and TLC checks ReadLine(Seek(Tell-before-line-i)) = line i for every small file and block size; seeded sessions are pushed through every GAF/graph-consuming command under {plain, multi-block BGZF} x {gfa, gfa.gz}, stored offsets (.gvi, .gsi) are resolved by seeking the real files, and TLC (Check_Same) decides that the four abstract results agree. The per-command oracles are the other properties' checks, which also alternate storage configurations.",
+        ref="5 C17, 4.3", note="Trusted: TLC, the harness BGZF writer/walker (stdlib zlib/struct). Quick uses 400-byte BGZF blocks (every record straddles blocks), thorough adds 64 KiB-scale blocks with padded records. Output file names are not compared.",
+        technique="TLC model checking of Storage.tla + differential replay of all commands over the storage matrix; TLC validation of agreement",
+    ),
 }
